@@ -44,15 +44,16 @@ CBS = {'cb_one': cb_one, 'cb_two': cb_two}
 FULL_ALPHABET = (
     [('seterr', k, r) for k in ('empty', 'obsdup') for r in ('ignore', 'raise', 'call')] +
     [('seterr_all', 'warn'), ('seterr_all', 'raise')] +
-    [('bad', 'reaction'), ('bad', 'kind'), ('bad', 'valid_then_invalid'), ('bad', 'invalid_then_valid')] +
+    [('bad', 'reaction'), ('bad', 'kind'), ('bad', 'valid_then_invalid'), ('bad', 'invalid_then_valid'),
+     ('bad', 'all_reaction')] +
     [('seterrcall', 'empty', 'cb_one'), ('seterrcall', 'empty', 'cb_two'), ('seterrcall', 'nokind', 'cb_two')] +
     [('trigger', 'empty'), ('trigger', 'obsdup')] +
     [('enter', i) for i in range(5)] + [('exit',), ('exit_exc',), ('exit_base',)])
 ENTER_ARGS = [{'empty': 'raise'}, {'obsdup': 'ignore'}, {'all': 'print'}, {'empty': 'call', 'sampdup': 'warn'},
-              {'nokind': 'raise'}]
+              {'nokind': 'raise'}, {'all': 'Raise'}]
 REDUCED = ([('seterr', 'empty', r) for r in ('ignore', 'raise', 'call')] + [('seterr_all', 'warn')] +
            [('seterrcall', 'empty', 'cb_one'), ('seterrcall', 'empty', 'cb_two'), ('trigger', 'empty')] +
-           [('enter', 0), ('enter', 2), ('enter', 3), ('exit',), ('exit_exc',), ('exit_base',)])
+           [('enter', 0), ('enter', 2), ('enter', 3), ('enter', 5), ('exit',), ('exit_exc',), ('exit_base',)])
 # a manager object built at one moment and entered at a later one (at most one such object at a time)
 DEFERRED = ([('seterr', 'empty', 'ignore'), ('seterr', 'empty', 'raise'), ('seterr', 'obsdup', 'call'),
              ('seterr_all', 'warn'), ('trigger', 'empty')] +
@@ -97,6 +98,8 @@ def bad_kwargs(variant):
         return [('empty', 'explode')]
     if variant == 'kind':
         return [('nokind', 'raise')]
+    if variant == 'all_reaction':
+        return [('all', 'explode')]
     if variant == 'valid_then_invalid':
         return [('empty', 'raise'), ('nokind', 'raise')]
     return [('obsdup', 'explode'), ('empty', 'warn')]
@@ -530,6 +533,75 @@ def reactions(chunk, acc):
     reset_world()
 
 
+# ----------------------------------------------------------------------------- inputs that trigger two kinds
+def pair_input(k1, k2):
+    from biom import Table
+    D = np.array([[1.0, 2.0], [3.0, 4.0]])
+    return {
+        ('obsdup', 'sampdup'): lambda: Table(D, ['a', 'a'], ['x', 'x']),
+        ('obsdup', 'obsmdsize'): lambda: Table(D, ['a', 'a'], ['x', 'y'], [{'k': 1}], None),
+        ('obsdup', 'obssize'): lambda: Table(D, ['a'], ['x', 'y']),            # too few ids
+        ('sampdup', 'sampmdsize'): lambda: Table(D, ['a', 'b'], ['x', 'x'], None, [{'k': 1}]),
+        ('sampdup', 'sampsize'): lambda: Table(D, ['a', 'b'], ['x']),
+        ('obsmdsize', 'sampmdsize'): lambda: Table(D, ['a', 'b'], ['x', 'y'], [{'k': 1}], [{'k': 1}, {'k': 2}, {'k': 3}]),
+    }[(k1, k2)]
+
+
+PAIRS = [('obsdup', 'sampdup'), ('obsdup', 'obsmdsize'), ('obsdup', 'obssize'), ('sampdup', 'sampmdsize'),
+         ('sampdup', 'sampsize'), ('obsmdsize', 'sampmdsize')]
+
+
+def reactions2(chunk, acc):
+    """an input that triggers two kinds: each kind's own reaction is what happens, in kind order, up to and
+    including the first 'raise'"""
+    import biom.err as err
+    from biom.exception import TableException
+    msgs = dict(zip(KINDS, [err.EMPTY, err.OBSSIZE, err.SAMPSIZE, err.OBSDUP, err.SAMPDUP, err.OBSMDSIZE,
+                            err.SAMPMDSIZE]))
+    for k1, k2, r1, r2 in chunk:
+        reset_world()
+        case = {'kinds': [k1, k2], 'reactions': [r1, r2]}
+        err.seterr(all='ignore')
+        err.seterrcall(k1, cb_one)
+        err.seterrcall(k2, cb_two)
+        err.seterr(**{k1: r1, k2: r2})
+        del CALLS[:]
+        buf = io.StringIO()
+        raised = None
+        with warnings.catch_warnings(record=True) as ws:
+            warnings.simplefilter('always')
+            with mock.patch.object(err, 'stdout', buf):
+                try:
+                    pair_input(k1, k2)()
+                except Exception as e:
+                    raised = e
+        got = {'raised': None if raised is None else (type(raised).__name__, str(raised)),
+               'warned': [str(w_.message) for w_ in ws if str(w_.message) in msgs.values()],
+               'printed': buf.getvalue(), 'called': [c[0] for c in CALLS]}
+        want = {'raised': None, 'warned': [], 'printed': '', 'called': []}
+        for k, r, cb in ((k1, r1, 'cb_one'), (k2, r2, 'cb_two')):
+            if r == 'raise':
+                want['raised'] = ('TableException', msgs[k])
+                break
+            if r == 'warn':
+                want['warned'].append(msgs[k])
+            elif r == 'print':
+                want['printed'] += msgs[k] + '\n'
+            elif r == 'call':
+                want['called'].append(cb)
+        acc.trans += 1
+        acc.evals += 1
+        if got != want:
+            acc.violation('reaction:two-kinds', 'input triggering %s and %s under %s=%r, %s=%r (all others ignore): '
+                          'observed %r, expected %r' % (k1, k2, k1, r1, k2, r2, got, want), case)
+        else:
+            acc.count('clause:reaction:two-kinds')
+            acc.nontrivial.add(h64(repr(case)))
+            acc.states.add(h64(('reaction2', k1, k2, r1, r2)))
+        acc.traces += 1
+    reset_world()
+
+
 # ----------------------------------------------------------------------------- errcheck site with probe tables
 def run(run):
     setup()
@@ -543,12 +615,13 @@ def run(run):
     cases = [(k, r, s, trig) for k in KINDS for r in REACTIONS for s in SITES for trig in (True, False)]
     cases += [(k, r, 'constructor', True) for k in ('obsmdsize-empty', 'sampmdsize-empty') for r in REACTIONS]
     run.pmap(reactions, cases, nchunks=16)
+    run.pmap(reactions2, [(k1, k2, r1, r2) for k1, k2 in PAIRS for r1 in REACTIONS for r2 in REACTIONS], nchunks=16)
     run.extra['alphabet'] = [list(o) for o in FULL_ALPHABET]
     run.extra['enter_args'] = ENTER_ARGS
     run.extra['max_nesting'] = MAXNEST
     vacuity(run, ['op:' + o for o in ('seterr', 'seterr_all', 'bad', 'seterrcall', 'trigger', 'enter', 'exit', 'exit_exc',
                                  'exit_base', 'create', 'enter_pending')] +
-            ['clause:reaction:' + r for r in REACTIONS] + ['site:' + s for s in SITES])
+            ['clause:reaction:' + r for r in REACTIONS] + ['site:' + s for s in SITES] + ['clause:reaction:two-kinds'])
     reset_world()
     run.assumptions += ['errstate context managers are driven by hand (__enter__/__exit__), leaving by exception is '
                         'cm.__exit__(Boom, exc, None)', "the 'print' reaction is observed through biom.err.stdout "
@@ -575,7 +648,10 @@ def replay(case):
         return found
     from ..core import Acc
     acc = Acc()
-    reactions([(case['kind'], case['reaction'], case['site'], case['triggering'])], acc)
+    if 'kinds' in case:
+        reactions2([tuple(case['kinds']) + tuple(case['reactions'])], acc)
+    else:
+        reactions([(case['kind'], case['reaction'], case['site'], case['triggering'])], acc)
     for sig, (n, ex) in acc.viol.items():
         found += [(sig, d) for d, _ in ex]
     return found
